@@ -435,6 +435,27 @@ def default_split_cases(rng, n):
         out.append(("defaults", side("Aa"), side("Bb")))
     return out
 
+# a definition, and a composition (allOf of two parts / a reference with sibling keywords) whose MERGE is structurally that
+# definition: independent additions all the same — what one is must not depend on whether the other is already known
+def compose_split_cases(rng, n):
+    out = []
+    scal = [{"type": "integer"}, {"type": "string"}, {"type": "boolean"}, {"type": "number"}]
+    for k in range(n):
+        names = rng.sample(["x", "y", "z", "w", "label"], rng.choice([2, 3]))
+        props = {p: copy.deepcopy(rng.choice(scal)) for p in names}
+        req = [p for p in names if rng.random() < 0.6]
+        whole = {"type": "object", "properties": props}
+        if req: whole["required"] = sorted(req)
+        cut = rng.randrange(1, len(names))
+        def part(ns):
+            o = {"type": "object", "properties": {p: copy.deepcopy(props[p]) for p in ns}}
+            r_ = sorted(p for p in ns if p in req)
+            if r_: o["required"] = r_
+            return o
+        comp = {"allOf": [part(names[:cut]), part(names[cut:])]}
+        out.append(("compose", [["AaPoint%d" % k, whole]], [["BbCoord%d" % k, comp]]))
+    return out
+
 def native_split_cases(rng, n):
     out = []
     for k in range(n):
@@ -536,7 +557,7 @@ def run(ctx):
             if fid is not None and fid in fids: known_hit[fid] = known_hit.get(fid, 0) + 1
             else: new_fail.append({"history": h, "clause": clause, "call": k, "detail": det, "kind": kind})
     # (iv) split / permutation
-    sc = split_cases(ctx, n_split_f, n_split_r) + default_split_cases(ctx.rng, 24 if quick else 600)
+    sc = split_cases(ctx, n_split_f, n_split_r) + default_split_cases(ctx.rng, 24 if quick else 600) + compose_split_cases(ctx.rng, 12 if quick else 300)
     nsc = native_split_cases(ctx.rng, 12 if quick else 200)
     shs = [split_histories(a, b) for _, a, b in sc] + [split_histories(a, b, st_) for _, a, b, st_ in nsc]
     sc = sc + [(k_, a, b) for k_, a, b, _ in nsc]
